@@ -124,6 +124,9 @@ def excluded_names(prog):
     return out
 
 
+STATIC_DIALECTS = ("duckdb", "snowflake", "bigquery")
+
+
 class Outcome:
     __slots__ = ("status", "symptoms", "sql", "cols", "rows", "model", "obs", "raw")
 
@@ -160,7 +163,10 @@ def run_case(w, prog, db, dbname, dialect, src=None, want_rq=True, user_names=No
         except ValueError as e:
             o.status = "gen_error"
             return o
-    req = {"op": "compile", "src": src, "target": "sql." + dialect, "db": dbname}
+    static = dialect in STATIC_DIALECTS
+    req = {"op": "compile", "src": src, "target": "sql." + dialect}
+    if not static:
+        req["db"] = dbname
     if want_rq:
         req["rq"] = True
     r = w.call(req)
@@ -190,6 +196,24 @@ def run_case(w, prog, db, dbname, dialect, src=None, want_rq=True, user_names=No
         for v in r["rqcheck"]["violations"]:
             o.symptoms.append(("C16", "rq:" + v.split(":")[0], v))
     ex = r.get("exec", {})
+    if static:
+        # dialects SQLite cannot execute (they have `* EXCLUDE (..)` / `* EXCEPT (..)`): the result columns are
+        # computed from the parsed statement by the SQL scope monitor over the schema of the database; only the
+        # frame (C05) is judged, and only when every relation of the statement has a fully known column list
+        from .mon import sqlscope
+        pr = w.call({"op": "sqlparse", "dialect": dialect, "sql": o.sql, "ast": True})
+        if not pr.get("ok"):
+            o.status = "static_unparsed"
+            return o
+        b = sqlscope.bind(pr["ast"], {t: list(dd["cols"]) for t, dd in db.items()})
+        out = b.get("out")
+        if b.get("monitor_error") or not out or out["open"] or any(p_["kind"] != "excluded_column_unknown" for p_ in b.get("problems", [])):
+            o.status = "static_open"
+            return o
+        for p_ in b.get("problems", []):
+            o.symptoms.append(("C07", "bind:" + p_["kind"], p_["detail"][:300]))
+        ex = {"cols": [("(expr %d)" % i if n == "\x00unnamed" else n) for i, n in enumerate(out["names"])], "rows": []}
+        o.obs["static_frame"] = True
     if "sqlite_error" in ex:
         cls = classify_sqlite_error(ex["sqlite_error"], dialect)
         if cls == "engine_unsupported":
@@ -325,6 +349,8 @@ def run_case(w, prog, db, dbname, dialect, src=None, want_rq=True, user_names=No
     # ---- C01 / C03: rows
     if not aligned and prefix_rows is not None:
         aligned, rows = True, prefix_rows
+    if static:
+        aligned = False          # nothing was executed
     if aligned:
         d = model.compare(m, rows)
         if d and second_engine_agrees(o.sql, db, m, rows, o.cols):
@@ -591,7 +617,7 @@ def shape_of(prog):
 DB_KINDS = ["normal", "normal", "empty", "nulls", "dups"]
 
 
-def explore_shard(prop, seed, shard, n_cases, profile, dialects=("sqlite", "generic"), props=None, reduce_budget=40, fixed=None):
+def explore_shard(prop, seed, shard, n_cases, profile, dialects=("sqlite", "generic"), props=None, reduce_budget=40, fixed=None, rotate=()):
     findings_cache = None
     """Generic exploration loop used by C01/C03/C04/C05.
     props: set of property ids whose symptoms this check owns."""
@@ -604,6 +630,7 @@ def explore_shard(prop, seed, shard, n_cases, profile, dialects=("sqlite", "gene
     reduced_cache = {}
     n_reduced = 0
     dbi = 0
+    nprog = shard
     # fixed: a list of (db, [programs]) enumerated by the caller (matrix phases) instead of random programs
     fixed_iter = iter(fixed) if fixed is not None else None
     while fixed_iter is not None or obs["cases"] < n_cases:
@@ -628,7 +655,8 @@ def explore_shard(prop, seed, shard, n_cases, profile, dialects=("sqlite", "gene
                 obs["gen_error"] += 1
                 continue
             kinds = grel.kinds_of(prog)
-            for dialect in dialects:
+            nprog += 1
+            for dialect in tuple(dialects) + ((rotate[nprog % len(rotate)],) if rotate else ()):
                 obs["cases"] += 1
                 o = run_case(w, prog, db, "d", dialect, src=src)
                 st = o.status
@@ -656,7 +684,13 @@ def explore_shard(prop, seed, shard, n_cases, profile, dialects=("sqlite", "gene
                             obs["sql_features"][k] = obs["sql_features"].get(k, 0) + 1
                     nc = min(sh["ctes"], 5)
                     obs["by_ctes"][str(nc)] = obs["by_ctes"].get(str(nc), 0) + 1
-                if st == "judged" and o.model is not None:
+                if o.obs.get("static_frame"):
+                    obs["static_frames_judged"] = obs.get("static_frames_judged", 0) + (1 if st == "judged" else 0)
+                    if st == "judged" and ("EXCLUDE" in o.sql or "EXCEPT (" in o.sql or "EXCEPT(" in o.sql):
+                        obs["static_frames_with_exclusion"] = obs.get("static_frames_with_exclusion", 0) + 1
+                        if len(re.findall(r"\*", re.sub(r"'[^']*'", "", o.sql))) > 1:
+                            obs["static_frames_with_exclusion_and_several_stars"] = obs.get("static_frames_with_exclusion_and_several_stars", 0) + 1
+                if st == "judged" and o.model is not None and not o.obs.get("static_frame"):
                     sh = o.obs["shape"]
                     if o.obs.get("engine_disagreement"):
                         obs["engine_disagreements_resolved_by_second_sqlite"] = obs.get("engine_disagreements_resolved_by_second_sqlite", 0) + 1
